@@ -124,7 +124,7 @@ PLAN = {
     ),
     "C04": dict(
         level="other",
-        functions=[SIM + "_update_schedules", "acnportal.acnsim.simulator._increase_width", NET + "update_pilots", SIM + "run"],
+        functions=[SIM + "_update_schedules", "acnportal.acnsim.simulator._increase_width", NET + "update_pilots", SIM + "run"] + SET_PILOT,
         bounded=[dict(module="rt.drivers", fn="sim_monitor", label="schedule overlay clauses on whole simulations")],
         text="PROVED (all schedules: any subset of stations, any common length, empty, longer than the horizon, at any period incl. the last; all matrix "
              "sizes; no bound): Simulator._update_schedules against a whole-matrix postcondition keyed by station id - for EVERY cell, columns "
@@ -132,7 +132,8 @@ PLAN = {
              "the width never shrinks and covers the schedule; an empty schedule changes nothing; an unknown station raises KeyError and unequal lengths "
              "raise InvalidScheduleError, both with every heap field unchanged and exactly in those cases; the infeasible-schedule branch only warns and "
              "is exception free (shape obligations of its numpy arithmetic); _increase_width keeps old content and pads with zeros; "
-             "ChargingNetwork.update_pilots (loop invariant) leaves every station with exactly column i of the matrix as its pilot; in Simulator.run "
+             "ChargingNetwork.update_pilots (loop invariant) leaves every station with exactly column i of the matrix as its pilot; BaseEVSE.set_pilot (each of the "
+             "three EVSE classes) records exactly the pilot it was sent, attached EV or not; in Simulator.run "
              "every precondition of these callees is discharged at its call site (shapes, column index inside the matrix). Because the postcondition "
              "is keyed by station id it does not depend on the order of the mapping's entries. PROVED per period of Simulator.run (clauses of the run "
              "loop's step contract, i.e. for every period of every run): the pilot every station holds at the end of period t is column t of the pilot "
@@ -427,7 +428,8 @@ PLAN = {
     ),
     "C20": dict(
         level="other",
-        functions=["acnportal.acndata.data_client.DataClient.get_sessions"],
+        functions=["acnportal.acndata.data_client.DataClient.get_sessions", "acnportal.acndata.data_client.DataClient.count_sessions",
+                   "acnportal.acndata.data_client.DataClient.get_sessions_by_time"],
         bounded=[dict(module="rt.fnmon", fn="dataclient_monitor", label="DataClient against a stub server; RFC-1123 conversions around DST transitions")],
         text="PROVED (every paging of the server's result set - any number of pages, empty pages anywhere, any page sizes -, every argument combination; "
              "no bound), over a ghost server (page items / has-next / next-href as functions of the requested URL): the generator get_sessions yields "
@@ -436,14 +438,20 @@ PLAN = {
              "only when a page has no next link, issues exactly one request per page (request log = the chain's URLs), the first URL is base + "
              "'sessions/' + site [+ '/ts/'] + '?' + [where=cond&][project=p&][sort=s&]max_results=100 (1 for time series) built from the arguments as "
              "given (z3 string theory), and an invalid site raises ValueError before any request is made (request log and output unchanged). "
+             "count_sessions: exactly one HEAD request to base + 'sessions/' + site + '?' + [where=cond&]limit=1, the result is the server's x-total-count "
+             "header for that URL, invalid sites rejected before any request. get_sessions_by_time (32 paths): the filter is 'connectionTime >= \"<http_date(start)>\"', "
+             "'connectionTime <= \"<http_date(end)>\"', 'kWhDelivered > <min_energy>', each present exactly when its argument is not None (0 included), in "
+             "this order, joined by ' and '; with count it is handed to count_sessions, otherwise to get_sessions with sort=connectionTime and the "
+             "time-series flag as given - the sessions yielded and the request log are those of that call. "
              "BOUNDED: the time half of the property - every RFC-1123 field and time-series timestamp becomes an aware datetime of the same instant in "
              "the document's zone, http_date / parse_http_date are inverse to the second (strptime / strftime / pytz: no contract of ours constrains them) - "
-             "and count_sessions / get_sessions_by_time, checked against a stub server and around DST transitions.",
+             "checked against a stub server and around DST transitions (the wrappers are monitored there too).",
         note="requests.get(url).json() is the ghost server's page for that URL (A-LIB / A-SERVER: the next links form a finite chain); parse_dates enters "
-             "through a frame-only assumed contract (its effect on the documents is the monitored half); sequence-theory lemma s[0:k+1] = s[0:k] ++ [s[k]] "
+             "through a frame-only assumed contract (its effect on the documents is the monitored half); http_date is an assumed contract (an unspecified "
+             "function of the datetime object); get_sessions_by_time returns the generator unconsumed - the contract describes what consuming it yields; sequence-theory lemma s[0:k+1] = s[0:k] ++ [s[k]] "
              "instantiated per occurrence",
-        explanation="proved: pagination, ordering, request count and URL construction of get_sessions (pyvc/z3 sequence and string theories); bounded: time "
-                    "conversions and the two wrapper methods (rt.fnmon.dataclient_monitor)",
+        explanation="proved: pagination, ordering, request count and URL construction of get_sessions, count_sessions, the filter construction and delegation of "
+                    "get_sessions_by_time (pyvc/z3 sequence and string theories); bounded: time conversions (rt.fnmon.dataclient_monitor)",
         technique="contract-based deductive verification of the generator over a ghost server (loop invariants, z3 sequence / string theory) + run-time contract monitor (bounded) for the time conversions",
         trusted=["A-LIB: requests.get / Response.json as a function URL -> page; str.format / join / + as string concatenation",
                  "A-SERVER: finite chain of next links"],
@@ -500,7 +508,8 @@ PLAN = {
     ),
     "C19": dict(
         level="other",
-        functions=[SN + "plugin", SN + "unplug", SN + "available_evses", SN + "post_charging_update"],
+        functions=[SN + "plugin", SN + "unplug", SN + "available_evses", SN + "post_charging_update",
+                   EQ + "add_event", EQ + "get_event", EQ + "get_current_events", EQ + "empty", EVT + "Event.__lt__"],
         bounded=[dict(module="rt.fnmon", fn="stochastic_monitor", label="operation sequences on StochasticNetwork against the FCFS model"),
                  dict(module="rt.drivers", fn="stochastic_sim_monitor", label="whole simulations on a StochasticNetwork")],
         text="PROVED (all registries, occupancies, waiting queues, every random choice of a free station; by induction over calls, no bound): the "
@@ -512,7 +521,8 @@ PLAN = {
              "is counted as never charged and the others keep their order; a matching departure frees the station when nobody waits, otherwise admits "
              "exactly the FIRST-come waiting EV to that station (swap counted, rest of the queue in order); a stale unplug changes nothing; KeyError / "
              "ValueError exactly for an unknown station / missing session id, state unchanged. post_charging_update never raises, keeps the invariant and "
-             "changes nothing without early_departure or when nobody waits. BOUNDED: 'every session is gone by the end of the run', reproducibility under a "
+             "changes nothing without early_departure or when nobody waits. The event queue the arrivals and departures come through (add_event, get_event, "
+             "get_current_events, empty, Event.__lt__; shared with C11 / C01): every due event is delivered, in time-then-precedence order. BOUNDED: 'every session is gone by the end of the run', reproducibility under a "
              "seed and the early-departure accounting over whole simulations.",
         note="random.choice(seq) is an arbitrary element of seq (A-LIB, every seed covered); OrderedDict operations (item assignment, move_to_end, "
              "popitem(last=False), del) per A-LIB with well-formedness of a dict value as a type invariant; precondition of plugin: the arriving EV is not "
